@@ -274,6 +274,12 @@ pub fn writer_qos(q: &Value) -> DataWriterQos {
     if let Some(n) = q["max_samples_per_instance"].as_i64() {
         qos.resource_limits.max_samples_per_instance = Length::Limited(n as i32);
     }
+    if q["own"] == "EXCLUSIVE" {
+        qos.ownership.kind = dust_dds::infrastructure::qos_policy::OwnershipQosPolicyKind::Exclusive;
+    }
+    if let Some(n) = q["strength"].as_i64() {
+        qos.ownership_strength.value = n as i32;
+    }
     qos
 }
 
@@ -295,6 +301,9 @@ pub fn reader_qos(q: &Value) -> DataReaderQos {
     };
     if !q["deadline_ms"].is_null() {
         qos.deadline.period = dur_kind_ms(&q["deadline_ms"]);
+    }
+    if q["own"] == "EXCLUSIVE" {
+        qos.ownership.kind = dust_dds::infrastructure::qos_policy::OwnershipQosPolicyKind::Exclusive;
     }
     qos
 }
